@@ -249,6 +249,12 @@ class DNSCache:
         for name, type_, class_ in unique_types:
             for record in self.async_all_by_details(name, type_, class_):
                 created_double = record.created
-                if (now - created_double > _ONE_SECOND) and record not in answers_rrset:
+                if (
+                    (now - created_double > _ONE_SECOND)
+                    and record not in answers_rrset
+                    # A record that already ran out (and waits to be purged)
+                    # must not be given another second to live
+                    and not record.is_expired(now)
+                ):
                     # Expire in 1s
                     record.set_created_ttl(now, 1)
